@@ -263,6 +263,21 @@ def run(chk, replay=None):
             if isinstance(region, Raised):
                 chk.violation('gen:build raised:%s' % shape, dict(m, err=repr(region)))
                 continue
+            if case['flags'] and (ci + rep) % 2 == 0:
+                # a region with flagged-out cells rebuilt from its dictionary form: whatever flags the rebuilt region says it has
+                # (poly_mask), its look-ups honour them - a cell it calls flagged-out is outside it, every other cell is inside
+                from csep.core.regions import CartesianGrid2D as _CG
+                rb = guarded(lambda: _CG.from_dict(region.to_dict()))
+                chk.count()
+                if not isinstance(rb, Raised):
+                    mids = numpy.asarray(rb.midpoints())
+                    mk = guarded(rb.get_masked, mids[:, 0], mids[:, 1])
+                    pm = getattr(rb, 'poly_mask', None)
+                    pm = numpy.ones(len(mids)) if pm is None else numpy.asarray(pm, dtype=float).reshape(-1)
+                    want_out = [float(f_) == 0.0 for f_ in pm]
+                    if isinstance(mk, Raised) or [bool(x) for x in numpy.asarray(mk).reshape(-1)] != want_out:
+                        chk.violation('gen:region rebuilt from its dictionary form does not honour its own flags:%s' % shape,
+                                      dict(m, poly_mask=[float(f_) for f_ in pm], masked_midpoints=repr(mk)))
             closing = (lattice_edges(x0, dh, nx + 1)[-1], lattice_edges(y0, dh, ny + 1)[-1])
             tr, pts = region_trace(chk, 'gen%d' % ci, region, case['cmap'], nx, ny, xe, ye, dhf, numpy,
                                    full=((not quick) or ci % 10 == 0) and not (single and rep >= reps), rng=rng, closing=closing)
